@@ -1,9 +1,10 @@
 (** C36 property theorems: SSH channel flow control and flush-before-close.
 
     For EVERY remote max packet rmp >= 1, local window lws, local max packet lmp, initial remote
-    window rw and EVERY history [ops] of write / writeExtended / loseConnection calls and of
+    window rw and EVERY history [ops] of write / writeExtended / loseConnection calls, of
     WINDOW_ADJUST / DATA / EXTENDED_DATA / CLOSE messages from the peer (any lengths, any order,
-    compliant or not).  [run true ...] is the machine with the repaired addWindowBytes
+    compliant or not) and of conn.adjustWindow(channel, n) calls by the receiving application (any n,
+    also beyond localWindowSize).  [run true ...] is the machine with the repaired addWindowBytes
     (fixes/C36-close-before-extbuf-flushed.patch); the last theorem exhibits the defect of the
     pinned code ([run false ...]).  Every prefix of a history is a history, so each statement holds
     at every point between two operations. *)
@@ -67,7 +68,8 @@ Proof. intros rmp lws lmp rw ops H. exact (T_close_sent rmp lws lmp H rw ops). Q
 Print Assumptions requested_close_sent_once_flushed.
 
 (** the receiver's window is what the peer computes from the messages it saw (local window + every
-    WINDOW_ADJUST we sent - bytes we accepted); hence a packet within that window and the max packet
+    WINDOW_ADJUST we sent, automatic or requested by the application - bytes we accepted), i.e. the
+    ADVERTISED total, not anything capped at localWindowSize; hence a packet within that window and the max packet
     size is delivered (after at most one WINDOW_ADJUST), never answered with CLOSE *)
 Theorem compliant_peer_never_refused : forall rmp lws lmp rw ops d, 0 < rmp ->
   let s := run true rmp lws lmp (init rw lws) ops in
